@@ -29,12 +29,16 @@ fn cfg_of(c: &Value) -> ReaderCfg {
     let cap = c["cap"].as_i64().unwrap_or(-1); r.cap = if cap < 0 { None } else { Some(cap as usize) };
     r
 }
-fn sched_of(s: &Value) -> Vec<Step> {
-    s.as_array().cloned().unwrap_or_default().iter().map(|x| match x {
-        Value::Number(n) => { let k = n.as_i64().unwrap_or(0); if k == 0 { Step::Zero } else { Step::N(k as usize) } }
-        Value::String(t) if t == "pause" => Step::Pause,
-        Value::String(t) => { let parts: Vec<&str> = t.splitn(3, ':').collect(); let kind = match parts.get(1).copied().unwrap_or("") { "TimedOut" => std::io::ErrorKind::TimedOut, "ConnectionReset" => std::io::ErrorKind::ConnectionReset, "PermissionDenied" => std::io::ErrorKind::PermissionDenied, _ => std::io::ErrorKind::Other }; Step::Err(kind, parts.get(2).copied().unwrap_or("").to_string()) }
-        _ => Step::Zero,
+fn sched_of(s: &Value, io: &Value) -> Vec<Step> {
+    let mut errs = io.as_array().cloned().unwrap_or_default().into_iter();
+    s.as_array().cloned().unwrap_or_default().iter().map(|x| {
+        let k = x.as_i64().unwrap_or(0);
+        if k > 0 { Step::N(k as usize) } else if k == 0 { Step::Zero } else if k == -1 { Step::Pause } else {
+            let t = errs.next().and_then(|v| v.as_str().map(|s| s.to_string())).unwrap_or_default();
+            let parts: Vec<&str> = t.splitn(2, ':').collect();
+            let kind = match parts.first().copied().unwrap_or("") { "TimedOut" => std::io::ErrorKind::TimedOut, "ConnectionReset" => std::io::ErrorKind::ConnectionReset, "PermissionDenied" => std::io::ErrorKind::PermissionDenied, _ => std::io::ErrorKind::Other };
+            Step::Err(kind, parts.get(1).copied().unwrap_or("").to_string())
+        }
     }).collect()
 }
 fn tag_of(e: &Value) -> DynTag {
@@ -67,7 +71,7 @@ pub fn run(out: &mut Out, inp: &str) {
                     j += 1;
                 }
                 if tag.starts_with("async") || tag.starts_with("stream") { for k in i..j { out.ev(evs[k].clone()); } }   // not re-executed: recorded events are kept
-                else { run_reader::<DynTag>(out, &tag, &bytes(&e["input"]), &cfg_of(&e["cfg"]), &sched_of(&e["sched"]), &Calls::Script(calls)); }
+                else { run_reader::<DynTag>(out, &tag, &bytes(&e["input"]), &cfg_of(&e["cfg"]), &sched_of(&e["sched"], &e["sched_io"]), &Calls::Script(calls)); }
                 i = j;
             }
             "wrun" => {
